@@ -13,7 +13,7 @@ ID = "C02"
 LEVEL = "exploration"
 RULE = (
     "Byte strings: (i) 1-4 stacked byte-level mutations (bit flip, interesting byte/word, insert, delete, truncate, duplicate chunk, "
-    "splice of two valid streams) of 32 valid streams generated from the current tree (both profiles, fragments 1/2/3, lossless, "
+    "splice of two valid streams) of 34 valid streams generated from the current tree (both profiles, fragments 1/2/3, lossless, "
     "asymmetric, horizontal-only, fields, 4:2:0/4:2:2, 10/16 bit, custom matrix, slice size scaler > 1, padding/auxiliary units, "
     "two sequences); (ii) field-level mutations: deserialise, replace 1-3 fields (biased to parse codes, offsets, picture numbers, "
     "fragment counters, slice lengths, qindex, version/profile/level, transform and slice parameters) by 0/1/+-1/bit flip/field "
